@@ -61,6 +61,9 @@ impl StatsCollector {
         ensures final(self).log == old(self).log, final(self).finalized@ == old(self).finalized@.push(mute_errors)
     { unimplemented!() }
     pub fn error_stats(&self) -> (r: &ErrorStats) { &self.es }
+    /// comparison with the statistics read from a file (unit v_collector_validate)
+    #[verifier::external_body]
+    pub fn validate_other_stats(&self, other: &StatsCollector, mute_errors: bool) -> (r: Result<(), ReadErr>) ensures r is Err == stats_mismatch(self.log@) { unimplemented!() }
     #[verifier::external_body] pub fn any_rdhs_seen(&self) -> (r: bool) { unimplemented!() }
     /// custom checks on the collected statistics may add errors (E9001.., Kani full_validate_custom_stats), never remove any
     #[verifier::external_body]
@@ -68,6 +71,45 @@ impl StatsCollector {
         ensures errs(final(self).log@) >= errs(old(self).log@), fatal(final(self).log@) == fatal(old(self).log@), final(self).finalized == old(self).finalized
     { unimplemented!() }
     #[verifier::external_body] pub fn unique_error_codes_as_slice(&self) -> (r: &[u64]) { unimplemented!() }
+}
+
+// ---- the statistics file to compare against (`--input-stats-file`)
+#[derive(Clone, Copy)]
+pub struct OsStr { pub id: Ghost<int> }
+pub uninterp spec fn ext_is(e: int, s: Seq<char>) -> bool;
+impl PartialEq<&str> for OsStr {
+    #[verifier::external_body]
+    fn eq(&self, other: &&str) -> (r: bool) ensures r == ext_is(self.id@, (*other)@) { unimplemented!() }
+}
+pub struct PathBuf { pub ext: Option<OsStr> }
+impl PathBuf {
+    /// (the real method returns Option<&OsStr>; by value here so that the comparison with a literal keeps its specification)
+    pub fn extension(&self) -> (r: Option<OsStr>) ensures r == self.ext { self.ext }
+}
+pub uninterp spec fn stats_file() -> Option<PathBuf>;   // --input-stats-file
+pub uninterp spec fn stats_file_readable() -> bool;      // the file can be read
+pub uninterp spec fn stats_file_parses() -> bool;        // its content is a well-formed statistics document
+pub uninterp spec fn stats_mismatch(mine: Seq<StatType>) -> bool;   // validate_other_stats reports a difference (unit v_collector_validate)
+pub struct FileText;
+pub struct ReadErr;
+pub mod fs {
+    use vstd::prelude::*;
+    use crate::*;
+    #[verifier::external_body]
+    pub fn read_to_string(p: &PathBuf) -> (r: Result<FileText, ReadErr>) ensures r is Ok == stats_file_readable() { unimplemented!() }
+}
+pub struct OtherStats;
+pub mod serde_json {
+    use vstd::prelude::*;
+    use crate::*;
+    #[verifier::external_body]
+    pub fn from_str(s: &FileText) -> (r: Result<StatsCollector, ReadErr>) ensures r is Ok == stats_file_parses() { unimplemented!() }
+}
+pub mod toml {
+    use vstd::prelude::*;
+    use crate::*;
+    #[verifier::external_body]
+    pub fn from_str(s: &FileText) -> (r: Result<StatsCollector, ReadErr>) ensures r is Ok == stats_file_parses() { unimplemented!() }
 }
 
 pub uninterp spec fn cfg_cap() -> u32;       // --max-tolerate-errors
@@ -79,6 +121,7 @@ pub struct ViewCmd;
 pub enum DataOutputMode { File, Stdout, None }
 pub struct Cfg;
 impl Cfg {
+    #[verifier::external_body] pub fn input_stats_file(&self) -> (r: Option<&PathBuf>) ensures r.is_some() == stats_file().is_some(), r matches Some(p) ==> *p == stats_file().unwrap() { unimplemented!() }
     #[verifier::external_body] pub fn custom_checks_enabled(&self) -> (r: bool) { unimplemented!() }
     #[verifier::external_body] pub fn view(&self) -> (r: Option<ViewCmd>) { unimplemented!() }
     #[verifier::external_body] pub fn output_mode(&self) -> (r: DataOutputMode) { unimplemented!() }
@@ -143,6 +186,20 @@ impl Controller {
             final(self).end_processing_flag == old(self).end_processing_flag, final(self).any_errors_flag == old(self).any_errors_flag
     { unimplemented!() }
 
+    /// last statements of Controller::run: comparison with a statistics file
+    fn site_run_stats_file(&mut self)
+        requires
+            // what Config::validate_args established before anything ran (unit v_validate_args) ...
+            stats_file() matches Some(p) ==> (p.ext matches Some(e) && (ext_is(e.id@, "json"@) || ext_is(e.id@, "toml"@))),
+            // ... and a well-formed, readable statistics file (C04 / C16 speak of well-formed configuration files)
+            stats_file().is_some() ==> stats_file_readable() && stats_file_parses(),
+        ensures
+            final(self).stats_collector == old(self).stats_collector,
+            final(self).any_errors_flag.v == (old(self).any_errors_flag.v || (stats_file().is_some() && stats_mismatch(old(self).stats_collector.log@))), // [C16][C15] a statistics mismatch sets the any-errors status; a matching file (or none) leaves it alone
+    {
+//@EXTRACT run_stats_file
+    }
+
     /// statements of Controller::run after the receive loop, up to and including the any-errors decision
     fn site_run_tail(&mut self)
         requires old(self).max_tolerate_errors == cfg_cap(), errs(old(self).stats_collector.log@) >= 0,
@@ -157,4 +214,5 @@ impl Controller {
 }
 
 } // verus!
+impl core::fmt::Debug for ReadErr { fn fmt(&self, _f: &mut core::fmt::Formatter<'_>) -> core::fmt::Result { Ok(()) } }
 fn main() {}
